@@ -14,8 +14,9 @@ def op(o, a=0):
     return {"o": o, "a": a}
 
 
-def term(k, s=None, catch=False):
-    return {"k": k, "s": s if s is not None else S("N"), "catch": bool(catch)}
+def term(k, s=None, catch=False, ret=0):
+    """ret (only with k == "return"): return the task object of spawned task `ret` itself instead of a value"""
+    return {"k": k, "s": s if s is not None else S("N"), "catch": bool(catch), "ret": ret}
 
 
 def seg(ops, t):
@@ -182,6 +183,7 @@ class Gen(object):
         segs = []
         open_ctx = []
         yielded = []
+        spawned = []
         for k in range(1, nseg + 1):
             ops = []
             nops = r.randint(0, 3) if (p["p_ctx"] or p["p_sync"] or p["p_read"] or p["p_spawn"] or p["p_dirty"]) else 0
@@ -194,7 +196,7 @@ class Gen(object):
                         ty = r.choice(p["ctx_types"])
                         var = r.randint(1, p["nvars"]) if ty in ("override", "attr") else 0
                         faulty = r.choice(p["faulty"]) if (p["faulty"] and ty == "async") else "-"
-                        self.ctxs.append(ctx(ty, var, r.randint(1, 3) * 10 + len(self.ctxs) % 10, faulty))
+                        self.ctxs.append(ctx(ty, var, r.choice((10, 10, 20, 30 + len(self.ctxs) % 10)), faulty))
                         c = len(self.ctxs)
                         open_ctx.append(c)
                         ops.append(op("enter", c))
@@ -213,6 +215,7 @@ class Gen(object):
                     if u is not None:
                         self.sync_targets.add(u)   # never shared as a T leaf
                         ops.append(op("spawn", u))
+                        spawned.append(u)
             last = k == nseg
             if not last and r.random() < p["p_raise"] * 0.5:
                 segs.append(seg(ops, term("raise")))
@@ -223,6 +226,8 @@ class Gen(object):
                     segs.append(seg(ops, term("raise")))
                 elif x < p["p_raise"] + p["p_result"]:
                     segs.append(seg(ops, term("result")))
+                elif spawned and r.random() < 0.5:
+                    segs.append(seg(ops, term("return", ret=r.choice(spawned))))   # hands out a task it never awaited
                 else:
                     segs.append(seg(ops, term("return")))
             else:
